@@ -19,6 +19,8 @@ from common import CoqEvalError, c_bool, c_str
 
 from golem.core.dag.graph import Graph
 from golem.core.optimisers.fitness import MultiObjFitness, SingleObjFitness
+from golem.core.optimisers.genetic.operators.base_mutations import MutationStrengthEnum, MutationTypesEnum
+from golem.utilities.data_structures import ComparableEnum
 from golem.core.optimisers.graph import OptGraph, OptNode
 from golem.core.optimisers.objective.objective import ObjectiveInfo
 from golem.core.optimisers.opt_history_objects.individual import Individual
@@ -597,25 +599,35 @@ def q_dump(d):
 DUMP_FN = 'fun c => match c with (h, r, f, l, ok) => [dump_agree h r f l; dump_holds_b h r l && ok] end'
 
 
-def collect_dumps(history, directory, out, desc, limit):
-    """dump files of the last generation against the live individuals (called right after the dump)"""
+def collect_dumps(history, directory, out, desc, limit, recipe=None):
+    """dump files of the last generation against the live individuals (called right after the dump);
+    limit=None: every member"""
     if not history.generations:
         return
     gi = history.generations_count - 1
-    for ind in list(history.generations[gi])[:limit]:
+    members, seen = [], set()
+    for ind in history.generations[gi]:
+        if id(ind) not in seen:
+            seen.add(id(ind))
+            members.append(ind)
+    if limit is not None and len(members) > limit:
+        members = members[:limit - 1] + [members[-1]]       # the last member is always looked at
+    for ind in members:
         path = os.path.join(directory, str(gi), str(ind.uid), '%s.json' % ind.uid)
+        base = {'desc': desc, 'recipe': recipe, 'generation': gi}
         if not os.path.exists(path):
-            out.append({'missing': path, 'desc': desc})
+            out.append(dict(base, missing=os.path.join(str(gi), str(ind.uid)), members=[str(i.uid)[:8] for i in history.generations[gi]]))
             continue
         try:
             d = dump_case(ind, path)
         except ShapeError as ex:
-            out.append({'shape': str(ex), 'desc': desc})
+            out.append(dict(base, shape=str(ex)))
             continue
         except ImplRaised as ex:
-            out.append({'raised': str(ex), 'desc': desc, 'uid': str(ind.uid), 'fitness': repr(ind.fitness)})
+            out.append(dict(base, raised=str(ex), uid=str(ind.uid), fitness=repr(ind.fitness)))
             continue
         d['desc'] = '%s gen %d' % (desc, gi)
+        d['recipe'] = recipe
         out.append(d)
 
 
@@ -687,8 +699,37 @@ def mk_fitness(rng, multi, weights=None, values=None, reset=False):
     return SingleObjFitness(rng.choice(DY), rng.choice(DY))
 
 
+class HEnum(ComparableEnum):
+    """enum of the harness whose values are not spelled like the member names (int, float, str values)"""
+    three = 3
+    half = 0.5
+    text = 'some text value'
+    other_name = 'three'      # a value that is the NAME of another member
+
+
+def resolve_meta(x):
+    """metadata of a recipe: '@strength:<m>' / '@henum:<m>' / '@enum:<m>' strings stand for enum members"""
+    if isinstance(x, dict):
+        return {k: resolve_meta(v) for k, v in x.items()}
+    if isinstance(x, list):
+        return [resolve_meta(v) for v in x]
+    if isinstance(x, str) and x.startswith('@strength:'):
+        return MutationStrengthEnum[x[10:]]
+    if isinstance(x, str) and x.startswith('@henum:'):
+        return HEnum[x[7:]]
+    if isinstance(x, str) and x.startswith('@enum:'):
+        return MutationTypesEnum[x[6:]]
+    return x
+
+
+META_SPECS = [{}, {}, {'k': 1}, {'note': 'x', 'vals': [1, 2.5, None], 'nested': {'a': True}}, {'b': 'text', 'a': 0},
+              {'mutation_strength': '@strength:strong', 'mutation_type': '@enum:single_add'},
+              {'h': '@henum:three', 'nested': {'list': ['@henum:half', {'deep': '@henum:text'}, '@strength:weak'], 'n': 1}},
+              {'alias': '@henum:other_name', 's': '@strength:mean'}]
+
+
 def mk_meta(rng):
-    return rng.choice([{}, {}, {'k': 1}, {'note': 'x', 'vals': [1, 2.5, None], 'nested': {'a': True}}, {'b': 'text', 'a': 0}])
+    return resolve_meta(rng.choice(META_SPECS))
 
 
 def mk_operator(x):
@@ -729,7 +770,10 @@ class Synth:
                 kw['uid'] = spec['uid']
             fit = mk_fitness(rng, multi, weights, spec.get('values'), bool(spec.get('reset'))) if spec.get('evaluated', True) \
                 else (MultiObjFitness() if multi else SingleObjFitness())
-            inds.append(Individual(mk_graph(rng), parent_operator=po, metadata=dict(mk_meta(rng)), fitness=fit, **kw))
+            meta = dict(mk_meta(rng))
+            if spec.get('meta') is not None:
+                meta = resolve_meta(spec['meta'])
+            inds.append(Individual(mk_graph(rng), parent_operator=po, metadata=meta, fitness=fit, **kw))
         objective = ObjectiveInfo(multi, tuple(rc.get('metric_names', ())))
         h = OptHistory(objective, rc.get('save_dir')) if rc.get('objective', True) else OptHistory()
         steps = rc.get('steps')
@@ -738,15 +782,34 @@ class Synth:
         for kind, i in steps:
             if kind == 'g':
                 g = rc['gens'][i]
-                h.add_to_history([inds[m] for m in g['members']], g.get('label'), g.get('meta'))
+                h.add_to_history([inds[m] for m in g['members']], g.get('label'), resolve_meta(g.get('meta')))
                 if dump_dir is not None:
                     h.save_current_results(dump_dir)
-                    collect_dumps(h, dump_dir, dumps, 'synthetic', dump_limit)
+                    collect_dumps(h, dump_dir, dumps, 'synthetic', dump_limit, rc)
+                    if rc.get('redump'):
+                        # members that were recorded unevaluated get their evaluation result; the generation is dumped again
+                        changed = False
+                        for ind in h.generations[-1]:
+                            if not ind.fitness.valid:
+                                ind.set_evaluation_result(mk_fitness(random.Random(7), multi, rc.get('weights'),
+                                                                     [1.5] * (len(rc['weights']) if multi and rc.get('weights') else (2 if multi else 1))))
+                                changed = True
+                        if changed:
+                            h.save_current_results(dump_dir)
+                            collect_dumps(h, dump_dir, dumps, 'synthetic-redump', dump_limit, rc)
             else:
                 h.add_to_archive_history([inds[m] for m in rc['snaps'][i]])
         if rc.get('tuning'):
             h.tuning_result = mk_graph(random.Random(5))
         return h
+
+
+def build_with_dumps(rc, directory, dumps):
+    """builds the history of a recipe, dumping every generation to `directory` (None: no dumps) and comparing every
+    dumped member; 'earlier_run': the directory already holds the dumps of another run (other payloads, same layout)"""
+    if directory is not None and rc.get('earlier_run'):
+        Synth(dict(rc, seed=rc.get('seed', 0) + 1, redump=False)).build(dump_dir=directory, dumps=[], dump_limit=None)
+    return Synth(rc).build(dump_dir=directory, dumps=dumps, dump_limit=None)
 
 
 def fixed_recipes():
@@ -799,6 +862,25 @@ def fixed_recipes():
                  {'multi': True, 'metric_names': ['a', 'b'], 'weights': [0.0, 0.0],
                   'inds': [{'values': [1.5, -1.0]}, {'op': 'mutation', 'parents': [0], 'values': [2.0, 3.25]}],
                   'gens': [{'members': [0]}, {'members': [1]}], 'snaps': [[0], [1]]}))
+    R.insert(7, ('metadata of generations and individuals holding enum members whose values differ from their names',
+                 {'inds': [{'meta': {'mutation_type': '@enum:single_add'}},
+                           {'op': 'mutation', 'parents': [0], 'meta': {'mutation_strength': '@strength:strong', 'h': ['@henum:three', {'x': '@henum:half'}]}},
+                           {'op': 'mutation', 'parents': [1], 'evaluated': False, 'meta': {'alias': '@henum:other_name', 't': '@henum:text'}}],
+                  'gens': [{'members': [0], 'meta': {'mutation_type': '@enum:simple'}},
+                           {'members': [1, 0], 'label': 'evolution', 'meta': {'mutation_strength': '@strength:mean', 'nested': {'l': ['@henum:half', 1]}}}],
+                  'snaps': [[0], [1, 2]], 'dump': True}))
+    # incremental dumps
+    R.insert(7, ('generation listing an individual twice before other members (dumped)',
+                 {'inds': [{}, {}, {'op': 'mutation', 'parents': [0]}, {'op': 'crossover', 'parents': [0, 1]}],
+                  'gens': [{'members': [0, 1]}, {'members': [0, 2, 0, 3], 'meta': {'strength': '@strength:weak'}}, {'members': [3, 3, 1, 2]}],
+                  'snaps': [[0], [2], [3]], 'dump': True}))
+    R.insert(8, ('members evaluated after their generation was dumped: the generation is dumped again',
+                 {'inds': [{}, {'op': 'mutation', 'parents': [0], 'evaluated': False}, {'op': 'mutation', 'parents': [0], 'evaluated': False},
+                           {'op': 'crossover', 'parents': [1, 2], 'evaluated': False}],
+                  'gens': [{'members': [0, 1]}, {'members': [2, 1, 3]}], 'snaps': [[0], [1]], 'dump': True, 'redump': True}))
+    R.insert(9, ('dumps into a directory that holds an earlier run with the same uids',
+                 {'inds': [{'uid': 'fixed-a'}, {'uid': 'fixed-b', 'op': 'mutation', 'parents': [0]}, {'uid': 'fixed-c', 'op': 'mutation', 'parents': [1], 'evaluated': False}],
+                  'gens': [{'members': [0]}, {'members': [1, 0, 2]}], 'snaps': [[0], [1]], 'dump': True, 'redump': True, 'earlier_run': True, 'seed': 11}))
     # individuals recorded nowhere but as parents / in the archive
     R.append(('shared parent with native generation that is in no generation',
               {'inds': [{'ng': 0}, {'op': 'mutation', 'parents': [0]}, {'op': 'mutation', 'parents': [0]}],
@@ -844,7 +926,8 @@ def random_recipe(rng):
         if rng.random() < 0.3:
             g['label'] = rng.choice(['initial_assumptions', 'final_choices', 'custom label'])
         if rng.random() < 0.3:
-            g['meta'] = rng.choice([{'n': 1}, {'s': 'x', 'l': [1, 2]}])
+            g['meta'] = rng.choice([{'n': 1}, {'s': 'x', 'l': [1, 2]}, {'strength': '@strength:mean', 'l': ['@henum:half', {'d': '@henum:three'}]},
+                                    {'t': '@henum:text', 'type': '@enum:simple'}])
         rng.shuffle(g['members'])
     snaps = []
     for g in gens:
@@ -1046,7 +1129,7 @@ def evaluate_dumps(ctx, dumps):
     for d, (ag, ho) in zip(good, res[:-1]):
         ctx.count('dumps', key=json.dumps([d['file'], d['desc']], sort_keys=True), nontrivial=d['file']['op'] is not None,
                   has_parents=d['file']['op'] is not None, source=d['desc'].split(' ')[0])
-        case = {'desc': d['desc'], 'file': d['file'], 'loaded': d['loaded']}
+        case = {'desc': d['desc'], 'file': d['file'], 'loaded': d['loaded'], 'recipe': d.get('recipe')}
         if not ag:
             ctx.disagree('dumps', case, 'dumped individual differs from the model encoding / decoding')
         if not ho:
@@ -1108,7 +1191,7 @@ def run(ctx):
         for k, (desc, rc) in enumerate(recipes):
             d = os.path.join(tmp, str(k))
             try:
-                h = Synth(rc).build(dump_dir=d if k % 2 == 0 else None, dumps=dumps, dump_limit=dump_limit)
+                h = build_with_dumps(rc, d if (k % 2 == 0 or rc.get('dump')) else None, dumps)
                 o = observe(h)
             except ShapeError as ex:
                 ctx.disagree('synthetic', {'recipe': rc}, 'unexpected shape: %s' % ex)
@@ -1297,7 +1380,13 @@ def replay(ctx, payload):
     if not isinstance(rc, dict):
         return
     if 'inds' in rc:
-        h = Synth(rc).build()
+        tmp = tempfile.mkdtemp(prefix='c10_replay_')
+        try:
+            dumps = []
+            h = build_with_dumps(rc, tmp, dumps)
+            evaluate_dumps(ctx, dumps)
+        finally:
+            shutil.rmtree(tmp, ignore_errors=True)
     elif 'optimiser' in rc:
         h = real_history(rc, [], 0)
     else:
